@@ -246,7 +246,9 @@ type loopPolicy struct {
 
 func loopPolicies() []loopPolicy {
 	base := []string{"t", "<b>", "</b>", "<a>", "<a href=\"/x\">", "</a>", "<object>", "</object>", "<u>", "</u>", "<br>", "<img>", "<b/>", "<a/>",
-		"<script>", "</script>", "<style>", "</style>", "<script/>", "<title>", "</title>", "<custom-x>", "</custom-x>", "<custom-x id=\"1\">", "<!--c-->", "<frame>"}
+		"<script>", "</script>", "<style>", "</style>", "<script/>", "<title>", "</title>", "<custom-x>", "</custom-x>", "<custom-x id=\"1\">", "<!--c-->", "<frame>",
+		// a name that lower-cases to script under Unicode case folding but is not the script element
+		"<scr\u0130pt/>", "<scr\u0130pt>"}
 	mk := func(name string, ops ...Op) loopPolicy {
 		return loopPolicy{ps: &PolicySpec{Name: name, Ops: ops}, toks: base}
 	}
